@@ -153,3 +153,19 @@ Example C15_example_ops :
   let ops := [OAdd [0%R] 0; OAdd [1%R] 0; OAdd [4%R] 1; OAdd [5%R] 1; OSwitch 1 1] in
   all_permitted 1 [] ops.
 Proof. cbn. repeat split; try reflexivity. exists [1%R], 0%nat. split; [reflexivity|right; cbn; auto]. Qed.
+
+(* the edges of the indices' domain, for every n: one cluster per sample and a single cluster have no index, and the gate
+   then permits the assignment without evaluating one (wave-7 seed C04_7) *)
+From ART Require Import CVI_gate_edge.
+Theorem C15_one_cluster_per_sample_has_no_index :
+  forall labels : list nat, NoDup labels -> index_defined labels = false.
+Proof. exact one_cluster_per_sample_has_no_index. Qed.
+Theorem C15_a_single_cluster_has_no_index :
+  forall c n : nat, index_defined (repeat c n) = false.
+Proof. exact a_single_cluster_has_no_index. Qed.
+Theorem C15_gate_permits_when_every_sample_is_alone :
+  forall (N : Num) ncat labels i c lb (old new : N), NoDup labels -> cvi_match ncat labels i c lb old new = true.
+Proof. exact @gate_permits_when_every_sample_is_alone. Qed.
+Print Assumptions C15_one_cluster_per_sample_has_no_index.
+Print Assumptions C15_a_single_cluster_has_no_index.
+Print Assumptions C15_gate_permits_when_every_sample_is_alone.
